@@ -66,7 +66,7 @@ SOURCES = ('kw', 'tvar', 'client', 'mapping', 'ckw', 'cmap')
 FORMS = ('var', 'call', 'callexpr', 'varexprcall', 'entity', 'ifvar',
          'exprlambda', 'exprcomp', 'exprgen')
 BINDERS = ('in', 'inb', 'with', 'withmap', 'withonly', 'let', 'letn', 'lete',
-           'if', 'elif', 'try', 'sub')
+           'if', 'elif', 'try', 'sub', 'subcl')
 SYNTAXES = ('dtml', 'ssi', 'epfs')
 
 
@@ -84,6 +84,11 @@ def value_spec(kind, marker):
             else ['lit', v]
     if kind == 'callable':
         return ['probe', marker, ['lit', marker]]
+    if kind in ('raiseK', 'raiseN'):
+        # a callable whose own body fails with a KeyError / NameError about
+        # something else: that is its failure, not "name not defined here"
+        return ['raiser', marker, 'KeyError' if kind == 'raiseK'
+                else 'NameError', 'elsewhere']
     # a document template that shows whom it sees
     return ['tmpl', [T('<' + marker + ':'),
                      ['var', N('who'), [['missing', '-']]],
@@ -130,6 +135,17 @@ def cases(tier):
                             continue
                         if form.startswith('expr') and kind != 'plain':
                             continue
+                        idx += 1
+                        yield {'fam': 'src', 'sources': list(sub),
+                               'shape': shape, 'kind': kind, 'form': form,
+                               'syntax': SYNTAXES[idx % 3]}
+    # the value of the winning source is a callable that fails
+    for k in range(2, 7):
+        for sub in itertools.combinations(SOURCES, k):
+            for kind in ('raiseK', 'raiseN'):
+                for form in ('var', 'call', 'entity', 'ifvar'):
+                    for shape in (('single', 'last') if 'client' in sub
+                                  else ('none',)):
                         idx += 1
                         yield {'fam': 'src', 'sources': list(sub),
                                'shape': shape, 'kind': kind, 'form': form,
@@ -204,6 +220,12 @@ def build_src(case):
     spec = {}
     for s in case['sources']:
         spec[s] = value_spec(kind, 'S-' + s)
+    if kind in ('raiseK', 'raiseN'):
+        # only the winning source raises; the others define plain values
+        top = min(case['sources'], key=SOURCES.index)
+        for s in case['sources']:
+            if s != top:
+                spec[s] = value_spec('plain', 'S-' + s)
     parts = {'ctor_mapping': {'other': ['lit', 'o']},
              'ctor_kw': {'who': ['lit', 'WHO']},
              'mapping': {}, 'clients': [], 'tvars': {}, 'kw': {}}
@@ -401,6 +423,15 @@ def build_scope(case):
             ns['boom%d' % k] = ['raiser', 'boom%d' % k, 'HB', 'x']
             node = ['try', [T('t'), ['var', N('boom%d' % k), []]],
                     [[['HA'], inner]], None]
+        elif kind == 'subcl':
+            # a template called from an expression on the current namespace
+            # with a tuple of two client objects (the last one binds the
+            # name, over the template's own default) and a keyword
+            ns['sub%d' % k] = ['tmpl', inner, {name: ['lit', 'D' + marker]}]
+            ns['ca%d' % k] = ['obj', {'zz%d' % k: ['lit', 1]}]
+            ns['cb%d' % k] = ['obj', {name: ['lit', marker]}]
+            node = ['var', E('sub%d((ca%d, cb%d), _, kwx%d=1)'
+                             % (k, k, k, k)), []]
         else:
             sub = ['tmpl', inner, {name: ['lit', marker]}]
             ns['sub%d' % k] = sub
